@@ -36,6 +36,8 @@ Inductive stmt :=
 | SFun (name : string) (params : list string) (body : list stmt) (label : nat)
 | SBlock (body : list stmt)
 | STry (body : list stmt)               (* try { body } catch err_ { print(type(err_)); print(err_.context); } *)
+| SIf (cond : expr) (th el : list stmt)
+| SFor (x : string) (e : expr) (body : list stmt)   (* for x in e { body }: e.iter(), then IterNext until a StopIter *)
 with cdecl := CDecl (name : string) (sup : option string) (defctor : option string) (ms : list mdecl) (label : nat)
 with mdecl := MDecl (k : fkind) (name : string) (params : list string) (body : list stmt) (label : nat).
 
@@ -97,7 +99,8 @@ Record sem := mkSem {
   s_super_invoke : state -> ctx -> string -> nat -> res target;
   s_derives : state -> cref -> nat -> bool;
   s_next_cid : state -> nat;
-  s_cname : state -> cref -> option string }.
+  s_cname : state -> cref -> option string;
+  s_iter_next : state -> value -> res target }.    (* the implicit `next` call of the IterNext opcode *)
 
 Fixpoint assoc {A} (x : string) (l : list (string * A)) : option A :=
   match l with
@@ -148,7 +151,14 @@ Definition super_receiver (m : super_mode) (st : state) (c : ctx) : res value :=
     end
   end.
 
-Definition sem_mech_gen (old_super : super_mode) : sem := mkSem
+(* vm.rs iter_next_impl, the `next` a for loop sends to its iterator every round: `self.invoke(self.next_string, 0)`
+   (IterInvoke: the ordinary member invocation, fields first) - or, in a seeded variant, straight to the class's method
+   table (IterFromClass), bypassing a field named `next` *)
+Inductive iter_mode := IterInvoke | IterFromClass.
+Definition iter_mode_of_code (n : nat) : option iter_mode :=
+  match n with 0 => Some IterInvoke | 1 => Some IterFromClass | _ => None end.
+
+Definition sem_mech_gen (old_super : super_mode) (im : iter_mode) : sem := mkSem
   (fun st recv n => get_property (world_of st) recv n)
   (fun st recv n argc => invoke (world_of st) recv n argc)
   (fun st c n => match c_super c with
@@ -165,11 +175,16 @@ Definition sem_mech_gen (old_super : super_mode) : sem := mkSem
   (fun st r => match r with
                | CUser _ | CMeta _ => option_map cname (class_obj (mstore st) r)
                | _ => None
-               end).
+               end)
+  (fun st it => match im with
+                | IterInvoke => invoke (world_of st) it "next" 0
+                | IterFromClass => invoke_from_class (world_of st) (class_of (heap st) it) it "next" 0
+                end).
 
-Definition sem_mech : sem := sem_mech_gen SuperEnclosingMethod.
-Definition sem_mech_old : sem := sem_mech_gen SuperRunningFrame.
-Definition sem_mech_any_static : sem := sem_mech_gen SuperAnyStaticSelf.
+Definition sem_mech : sem := sem_mech_gen SuperEnclosingMethod IterInvoke.
+Definition sem_mech_old : sem := sem_mech_gen SuperRunningFrame IterInvoke.
+Definition sem_mech_any_static : sem := sem_mech_gen SuperAnyStaticSelf IterInvoke.
+Definition sem_mech_iter_from_class : sem := sem_mech_gen SuperEnclosingMethod IterFromClass.
 
 
 Definition spec_super_ctx {A} (st : state) (c : ctx) (k : nat -> value -> res A) : res A :=
@@ -196,7 +211,8 @@ Definition sem_spec : sem := mkSem
                | CUser i => option_map d_name (nth_error (hist st) i)
                | CMeta i => option_map (fun d => if Nat.eqb i 0 then "Type" else d_name d ++ "Class") (nth_error (hist st) i)
                | _ => None
-               end).
+               end)
+  (fun st it => spec_invoke (hist st) (heap st) (arities st) it "next" 0).
 
 (* ---------- outcomes ---------- *)
 Inductive oc :=
@@ -205,7 +221,8 @@ Inductive oc :=
 
 Inductive task :=
 | TE (e : expr) | TA (es : list expr) | T1 (s : stmt) | TS (ss : list stmt)
-| TEnter (t : target) (args : list value).
+| TEnter (t : target) (args : list value)
+| TLoop (it : value) (a : nat) (body : list stmt).      (* the rounds of a for loop; a = cell of the loop variable *)
 
 Definition of_res {A} (r : res A) (k : A -> state * oc) (st : state) : state * oc :=
   match r with Ok a => k a | Err e m => (st, RErr e m) | Stuck w => (st, RStuck w) end.
@@ -364,6 +381,22 @@ Definition bind_vals (r : state * oc) (k : list value -> state -> state * oc) : 
   | other => other
   end.
 
+(* core.yl: Error (1), StopIter (2), Iter (3), MapIter (4) are defined by `prelude` below, in this order *)
+Definition stop_iter_cid : nat := 2.
+
+(* JumpIfStopIter: an instance of a class derived from StopIter ends the loop *)
+Definition is_stop_iter (S : sem) (st : state) (r : value) : bool :=
+  match r with
+  | VInst a => match nth_error (heap st) a with
+               | Some i => s_derives S st (CUser (iclass i)) stop_iter_cid
+               | None => false
+               end
+  | _ => false
+  end.
+
+(* Value::into_bool *)
+Definition truthy (v : value) : bool := match v with VNil => false | VBool b => b | _ => true end.
+
 (* ---------- the evaluator ---------- *)
 Fixpoint ev (S : sem) (fuel : nat) (c : ctx) (t : task) (st : state) {struct fuel} : state * oc :=
   match fuel with
@@ -488,7 +521,32 @@ Fixpoint ev (S : sem) (fuel : nat) (c : ctx) (t : task) (st : state) {struct fue
         | (st1, RErr k msg) => (emit (emit st1 ("<class " ++ ekind_name k ++ ">")) msg, RNext (c_env c))
         | other => other
         end
+      | SIf cond th el =>
+        val cond st (fun v st1 =>
+          match rec (ctx_env c (c_env c) true) (TS (if truthy v then th else el)) st1 with
+          | (st2, RNext _) => (st2, RNext (c_env c))
+          | other => other
+          end)
+      | SFor x e body =>
+        (* compiler.rs for_statement: `e.iter()` is an ordinary Invoke; then IterNext / JumpIfStopIter per round *)
+        val e st (fun v st1 =>
+          of_res (s_invoke S st1 v "iter" 0) (fun tg =>
+            bind_val (rec c (TEnter tg []) (log_dispatch st1 v "iter" (target_closure tg))) (fun it st2 =>
+              let '(st3, a) := alloc_cell st2 VNil in
+              match rec (ctx_env c ((x, a) :: c_env c) true) (TLoop it a body) st3 with
+              | (st4, RNext _) => (st4, RNext (c_env c))
+              | other => other
+              end)) st1)
       end
+    | TLoop it a body =>
+      of_res (s_iter_next S st it) (fun tg =>
+        bind_val (rec c (TEnter tg []) st) (fun r st1 =>
+          if is_stop_iter S st1 r then (st1, RNext (c_env c))
+          else
+            match rec (ctx_env c (c_env c) true) (TS body) (set_cells st1 (list_set a r (cells st1))) with
+            | (st3, RNext _) => rec c (TLoop it a body) st3
+            | other => other
+            end)) st
     | TEnter tg vs =>
       match tg with
       | TNative NDerives slot0 =>
@@ -534,11 +592,38 @@ Fixpoint ev (S : sem) (fuel : nat) (c : ctx) (t : task) (st : state) {struct fue
 
 Definition default_fuel : nat := 1200.
 
-Definition run (S : sem) (p : prog) : state * oc := ev S default_fuel ctx0 (TS p) st0.
+(* the part of core.yl the mini-language uses (labels >= 1000 mark core functions).  `collect` (needs vectors) and `filter`
+   (its adapter only uses explicit invokes) are present in Iter's table, as in the implementation, but not modelled:
+   calling them is STUCK.  FilterIter and the other error classes are not needed. *)
+Definition unmodelled : list stmt := [SReturn (Some ECapSelf)].
+Definition prelude : prog := [
+  SClass (CDecl "Error" None None [
+     MDecl KInit "new" ["context"] [SSetField ESelf "context" (EVar "context")] 1001] 1002);
+  SClass (CDecl "StopIter" (Some "Error") None [
+     MDecl KInit "new" [] [SExpr (ESuperInvoke "new" [ENil])] 1003] 1004);
+  SClass (CDecl "Iter" None None [
+     MDecl KMethod "iter" [] [SReturn (Some ESelf)] 1005;
+     MDecl KMethod "map" ["f"] [SReturn (Some (EInvoke (EVar "MapIter") "new" [EInvoke ESelf "iter" []; EVar "f"]))] 1006;
+     MDecl KMethod "collect" [] unmodelled 1007;
+     MDecl KMethod "filter" ["pred"] unmodelled 1008;
+     MDecl KMethod "reduce" ["func"; "init"] [
+        SVar "ret" (EVar "init");
+        SFor "v" ESelf [SAssign "ret" (ECall (EVar "func") [EVar "ret"; EVar "v"])];
+        SReturn (Some (EVar "ret"))] 1009] 1010);
+  SClass (CDecl "MapIter" (Some "Iter") None [
+     MDecl KInit "new" ["iterable"; "func"] [SSetField ESelf "iterable" (EVar "iterable"); SSetField ESelf "func" (EVar "func")] 1011;
+     MDecl KMethod "iter" [] [SReturn (Some ESelf)] 1012;
+     MDecl KMethod "next" [] [
+        SVar "next" (EInvoke (EGet ESelf "iterable") "next" []);
+        SIf (EInvoke (EVar "next") "derives" [EVar "StopIter"]) [SReturn (Some (EVar "next"))] [];
+        SReturn (Some (EInvoke ESelf "func" [EVar "next"]))] 1013] 1014)].
+
+Definition run (S : sem) (p : prog) : state * oc := ev S default_fuel ctx0 (TS (prelude ++ p)) st0.
 Definition eval_spec (p : prog) : state * oc := run sem_spec p.
 Definition eval_mech (p : prog) : state * oc := run sem_mech p.
 Definition eval_mech_old (p : prog) : state * oc := run sem_mech_old p.
 Definition eval_mech_any_static (p : prog) : state * oc := run sem_mech_any_static p.
+Definition eval_mech_iter_from_class (p : prog) : state * oc := run sem_mech_iter_from_class p.
 
 (* ---------- observable result as text ---------- *)
 Definition sep : string := "~".
@@ -566,7 +651,8 @@ Definition show_mref (st : state) (m : mref) : string :=
   match m with
   | MNative NDerives => "native"
   | MClosure f => match nth_error (closures st) f with
-                  | Some cl => cl_name cl ++ "/" ++ show_nat (S (List.length (cl_params cl))) ++ "/L" ++ show_nat (cl_label cl)
+                  | Some cl => cl_name cl ++ "/" ++ show_nat (S (List.length (cl_params cl))) ++ "/"
+                               ++ (if Nat.leb 1000 (cl_label cl) then "core" else "L" ++ show_nat (cl_label cl))
                   | None => "?"
                   end
   end.
@@ -631,6 +717,8 @@ Fixpoint stmt_known (in_fn : bool) (s : stmt) : bool :=
        end) ms
   | SFun _ _ body _ => (fix go (l : list stmt) := match l with [] => false | x :: r => stmt_known true x || go r end) body
   | SBlock body | STry body => ss body
+  | SIf cond th el => es cond || ss th || ss el
+  | SFor _ e body => es e || ss body
   end.
 
 Definition nested_super (p : prog) : bool := existsb (stmt_known false) p.
@@ -655,6 +743,8 @@ Fixpoint meta_stmt (s : stmt) : list stmt :=
   | SFun name ps b label => [SFun name ps (body b) label]
   | SBlock b => [SBlock (body b)]
   | STry b => [STry (body b)]
+  | SIf cond th el => [SIf cond (body th) (body el)]
+  | SFor x e b => [SFor x e (body b)]
   | other => [other]
   end.
 
@@ -731,6 +821,9 @@ Fixpoint render_stmt (ind : nat) (s : stmt) : list string :=
     | _ => [pre ++ "fn " ++ name ++ "(" ++ render_params None ps ++ ") {"] +++ body (S ind) b +++ [pre ++ "}"]
     end
   | SBlock b => [pre ++ "{"] +++ body (S ind) b +++ [pre ++ "}"]
+  | SIf cond th el =>
+    [pre ++ "if " ++ render_expr cond ++ " {"] +++ body (S ind) th +++ [pre ++ "} else {"] +++ body (S ind) el +++ [pre ++ "}"]
+  | SFor x e b => [pre ++ "for " ++ x ++ " in " ++ render_expr e ++ " {"] +++ body (S ind) b +++ [pre ++ "}"]
   | STry b =>
     [pre ++ "try {"] +++ body (S ind) b
     +++ [pre ++ "} catch err_ {"; pre ++ "  print(type(err_));"; pre ++ "  print(err_.context);"; pre ++ "}"]
@@ -744,7 +837,8 @@ Definition render_text (p : prog) : string := show_sep sep (fun x => x) (render 
    mech outcome of the metamorphic variant @ its source   (`|` occurs in sources: lambdas) *)
 (* diagnosis of a disagreement: the outcomes under the other two shapes of `super_` *)
 Definition variant_case (p : prog) : string :=
-  show_outcome (eval_mech_old p) ++ "@" ++ show_outcome (eval_mech_any_static p).
+  show_outcome (eval_mech_old p) ++ "@" ++ show_outcome (eval_mech_any_static p) ++ "@"
+  ++ show_outcome (eval_mech_iter_from_class p).
 
 Definition run_case (p : prog) : string :=
   let m := eval_mech p in
